@@ -1,30 +1,22 @@
 #!/venv/bin/python
-"""Apply every seeded change to /repo in turn (always reverted), run all quick checks, record which rules fire.
+"""Apply every seeded change to a scratch copy of /repo (tools/_parallel.py), run all quick checks, record which rules fire.
 Writes /verif/seeded/<id>/meta.json 'detected_by' and prints a table."""
 import json, os, subprocess, sys, glob, re
 V = '/verif'
 os.chdir(V)
 seeds = sorted(glob.glob(V + '/seeded/*/patch.diff'))
-assert subprocess.run(['git', '-C', '/repo', 'diff', '--quiet']).returncode == 0, '/repo not clean'
 props = [p for p in json.load(open(V + '/claims.json'))]
 rows = []
-for patch in seeds:
+sys.path.insert(0, V + '/tools')
+from _parallel import run_all
+for patch, (viol, errors) in zip(seeds, run_all(seeds)):
     d = os.path.dirname(patch)
     sid = os.path.basename(d)
     meta = json.load(open(d + '/meta.json'))
-    try:
-        subprocess.check_call(['git', '-C', '/repo', 'apply', patch])
-        hits = {}
-        errors = []
-        out = subprocess.run([V + '/check', 'all', '--tier', 'quick'], capture_output=True, text=True)
-        for line in out.stdout.splitlines():
-            m = re.match(r'^(\S+?):(\d+): \[(C\d+)/([^\]]+)\] in (\S+):', line)
-            if m:
-                hits.setdefault(m.group(3), set()).add('%s@%s' % (m.group(4), m.group(5)))
-            if line.startswith('ANALYSIS-ERROR'):
-                errors.append(line[:260])
-    finally:
-        subprocess.check_call(['git', '-C', '/repo', 'checkout', '--', '.'])
+    hits = {}
+    for line in viol:
+        m = re.match(r'^(\S+?):(\d+): \[(C\d+)/([^\]]+)\] in (\S+):', line)
+        hits.setdefault(m.group(3), set()).add('%s@%s' % (m.group(4), m.group(5)))
     meta['detected_by'] = {p: sorted(v) for p, v in hits.items()}
     meta['analysis_errors'] = errors
     meta['detected'] = bool(hits)
